@@ -1227,7 +1227,19 @@ def _set_copy(it, a, k, n):
     return ops.snapshot(a[0])
 
 
-SET_METHODS = {"add": _set_add, "remove": _set_remove, "discard": _set_discard, "clear": _set_clear,
+def _set_update(it, a, k, n):
+    mutating(it, a[0], 'update()', n)
+    s, o = a[0], it.need(a[1])
+    if s.items is not None or not isinstance(o, VSet) or o.items is not None:
+        raise Unsupported("set.update on concrete sets")
+    x = z3.Const(it.ctx.fresh_name("sx"), s.arr.sort().domain())
+    new = z3.Array(it.ctx.fresh_name("set_union"), s.arr.sort().domain(), BoolS)
+    it.ctx.assume(z3.ForAll([x], z3.Select(new, x) == z3.Or(z3.Select(s.arr, x), z3.Select(o.arr, x))), "set.update:union")
+    s.arr = new
+    return NONE
+
+
+SET_METHODS = {"update": _set_update, "add": _set_add, "remove": _set_remove, "discard": _set_discard, "clear": _set_clear,
                "copy": _set_copy}
 
 
